@@ -35,6 +35,8 @@ def feature_spec():
                        P("nums", "query", arr(I), explode=False), P("pnums", "query", arr({"type": "integer", "format": "int32"}), style="pipeDelimited"),
                        P("flags", "query", arr(B), explode=False)],   # explode defaults to false for these styles
                        "responses": ok}},
+        "/dual": {"parameters": [P("version", "header", S), P("X-Request-Id", "header", S), P("mode", "query", S)],
+                  "get": {"operationId": "get_dual", "parameters": [P("version", "query", S), P("mode", "header", S)], "responses": ok}},
         "/headers": {"put": {"operationId": "put_headers", "parameters": [
             P("X-Trace-Id", "header", S, required=True), P("X-Count", "header", I), P("X-Flag", "header", B), P("X-List", "header", arr(S)),
             P("x-lower", "header", S)], "responses": ok}},
@@ -86,6 +88,9 @@ def probes():
         out.append(("get_query", {"req": "r", "nums": vs}, None))
         out.append(("get_query", {"req": "r", "pnums": vs}, None))
     out.append(("get_query", {"req": "r", "flags": [True, False]}, None))
+    out.append(("get_dual", {"version@header": "h1", "version@query": "q1", "X-Request-Id": "rid", "mode@query": "mq", "mode@header": "mh"}, None))
+    out.append(("get_dual", {"version@header": "only-header"}, None))
+    out.append(("get_dual", {"version@query": "only-query"}, None))
     out.append(("put_headers", {"X-Trace-Id": "t-1"}, None))
     out.append(("put_headers", {"X-Trace-Id": "abc def;=,", "X-Count": -5, "X-Flag": True, "X-List": ["a", "b c"], "x-lower": "v"}, None))
     out.append(("put_headers", {"X-Trace-Id": "t", "X-List": []}, None))
@@ -275,16 +280,20 @@ def main(tier, seed, replay=None):
         try:
             lines = [f"let mut r = M::{req_ty}::default();"]
             for p in op["params"]:
-                if p["name"] not in vals:
+                if not has_pval(vals, p):
                     continue
                 group = {"path": "path", "query": "query", "header": "header"}[p["in"]]
                 gty = types["struct"][req_ty][group][1]
                 f = types["struct"][gty.replace(" ", "")].get(p["name"]) or types["struct"][gty.replace(" ", "")][field_name(p["name"])]
-                lines.append(f"r.{group}.{f[0]} = {rust_expr(f[1], vals[p['name']], types)};")
+                lines.append(f"r.{group}.{f[0]} = {rust_expr(f[1], pval(vals, p), types)};")
             if op["body"] is not None and body is not None:
                 bty = types["struct"][req_ty]["body"][1]
                 lines.append(f"r.body = {rust_expr(bty, body, types)};")
-        except (KeyError, ValueError) as e:
+        except KeyError as e:
+            # a declared parameter (or the body) has no member in the emitted request types: the client cannot send it
+            viol.append((pr[k], f"{opid}: the emitted request type has no member for a declared parameter / body ({e}); supplied values {json.dumps(vals)[:120]} cannot be put on the wire", None))
+            continue
+        except ValueError as e:
             build_err.append(f"probe {k} {opid}: {e}")
             continue
         for (vn, bp) in (variants if k < 3 or opid in ("get_one",) and vals.get("id") in ("plain", "a/b") else variants[:1]):
@@ -366,6 +375,18 @@ def main(tier, seed, replay=None):
     return res.finish()
 
 
+def pval(vals, p):
+    """the value supplied for parameter p: keyed `name@in` when the name exists in several locations, else by name"""
+    k = f"{p['name']}@{p['in']}"
+    if k in vals:
+        return vals[k]
+    return vals.get(p["name"]) if not any(x.startswith(p["name"] + "@") for x in vals) else None
+
+
+def has_pval(vals, p):
+    return pval(vals, p) is not None
+
+
 def wire_text(v):
     if isinstance(v, bool):
         return "true" if v else "false"
@@ -396,7 +417,7 @@ def judge(op, vals, bodyv, raw, base_path, exe):
     # ---- path
     want_segs = [s for s in base_path.split("/") if s] + [s for s in op["path"].split("/") if s]
     got_segs = path.split("/")[1:] if path.startswith("/") else path.split("/")
-    pvals = {p["name"]: vals[p["name"]] for p in op["params"] if p["in"] == "path" and p["name"] in vals}
+    pvals = {p["name"]: pval(vals, p) for p in op["params"] if p["in"] == "path" and has_pval(vals, p)}
     if len(got_segs) != len(want_segs):
         out.append((f"path {path!r} has {len(got_segs)} segments, server path + template have {len(want_segs)} ({'/'.join(want_segs)})", classify_path(pvals, base_path)))
     else:
@@ -420,7 +441,7 @@ def judge(op, vals, bodyv, raw, base_path, exe):
     for p in op["params"]:
         if p["in"] != "query":
             continue
-        v = vals.get(p["name"])
+        v = pval(vals, p)
         if isinstance(v, list):
             st = {"spaceDelimited": "space", "pipeDelimited": "pipe"}.get(p.get("style"), "form")
             ex = p.get("explode", st == "form")
@@ -449,7 +470,7 @@ def judge(op, vals, bodyv, raw, base_path, exe):
     for p in op["params"]:
         if p["in"] != "header":
             continue
-        v = vals.get(p["name"])
+        v = pval(vals, p)
         got = headers.get(p["name"].lower())
         if v is None or (isinstance(v, list) and not v):
             if got is not None and not (isinstance(v, list) and got == [""]):
